@@ -32,7 +32,45 @@ def handle (toks : List String) : String :=
     -- is the document in the class of Props.C01.calc_eq_spec, and its largest weight (Spec/C01.lean)
     match pDoc rest with
     | some (d, []) =>
-      s!"ok {if GoblVerif.Calc.Err.inDocC d then 1 else 0} {GoblVerif.Calc.Err.docWeight d}"
+      -- 1: class of calc_eq_spec (no included tax); 2: class of calc_eq_spec_included only
+      -- (inDocI, weight docWeightI: prices including one tax category)
+      -- 4th field: the tight weight docWeightQ (a rational, decided_class_bound_tight) when inDocI
+      let tight : String :=
+        if GoblVerif.Calc.Err.inDocI d then
+          let q := GoblVerif.Calc.Err.docWeightQ d
+          s!"{q.num}/{q.den}"
+        else "-"
+      if GoblVerif.Calc.Err.inDocC d then s!"ok 1 {GoblVerif.Calc.Err.docWeight d} {tight}"
+      else if GoblVerif.Calc.Err.inDocI d then s!"ok 2 {GoblVerif.Calc.Err.docWeightI d} {tight}"
+      else "ok 0 0 -"
+    | some (_, _) => "bad-trailing"
+    | none => "bad-doc"
+  | "taxrows" :: rest =>
+    -- the exact values and weights of Props.C01.tax_rows_decided for the rows of the tax summary:
+    -- per category `k <hex code> <first with that code 0|1> <exact amount> <exact surcharge> <weight> <#groups>`
+    -- followed per rate group by `g <exact base> <Wb>`
+    match pDoc rest with
+    | some (d, []) =>
+      if !GoblVerif.Calc.Err.inDocI d then "ok 0" else
+      match calculate exactOps d with
+      | .ok out =>
+        match out.totals with
+        | some t =>
+          match t.taxes with
+          | some tx =>
+            let r (x : Rat) : String := s!"{x.num}/{x.den}"
+            let cats := tx.cats.map fun ct =>
+              let first := tx.cats.find? (fun x => x.code == ct.code) == some ct
+              let W := ct.rates.length + GoblVerif.Calc.Err.rowsWL (GoblVerif.Calc.Err.kN (some ct.code)) d.includes d
+              let groups := ct.rates.map fun rt =>
+                let key := GoblVerif.Spec.C02.keyOfRate rt
+                let Wb := GoblVerif.Calc.Err.rowsWL (GoblVerif.Calc.Err.gN ct.code key) d.includes d
+                s!" g {r (GoblVerif.Spec.C01.groupBaseQ d ct.code key)} {Wb}"
+              s!" k {hexStr ct.code} {if first then 1 else 0} {r (GoblVerif.Spec.C01.catAmountQ d ct.code)} {r (GoblVerif.Spec.C01.catSurchargeQ d ct.code)} {W} {ct.rates.length}" ++ String.join groups
+            s!"ok 1 {tx.cats.length}" ++ String.join cats
+          | none => "ok 0"
+        | none => "ok 0"
+      | .error _ => "ok 0"
     | some (_, _) => "bad-trailing"
     | none => "bad-doc"
   | _ => "bad-op"
